@@ -60,10 +60,9 @@ Proof. destruct o; cbn; split; congruence. Qed.
 (** * the invariant *)
 
 Record Inv (ws : bool) (s : mux) : Prop := mkInv {
-  I_next : m_next s = 1 + N.of_nat (length (m_issued s));
+  I_next : 1 <= m_next s;
   I_small : m_next s < two64;
   I_iss_c : NoDup (map fst (m_issued s));
-  I_iss_range : forall c id, In (c, id) (m_issued s) -> 1 <= id /\ id < m_next s;
   I_iss_id : NoDup (map snd (m_issued s));
   I_pend_nd : NoDup (map fst (m_pending s));
   I_pend_iss : forall id c, In (id, c) (m_pending s) ->
@@ -75,14 +74,13 @@ Record Inv (ws : bool) (s : mux) : Prop := mkInv {
   I_out_nd : NoDup (map fst (m_out s));
   I_out : forall c f, In (c, OGot f) (m_out s) ->
       In (c, f_id f) (m_issued s) /\ (ws = true -> f_notify f = 0);
-  I_out_iss : forall c, aget (m_out s) c <> None -> aget (m_issued s) c <> None;
   I_live : forall c id, In (c, id) (m_issued s) -> aget (m_out s) c = None ->
       aget (m_pending s) id = Some c \/ exists f, m_matched s = Some (c, f)
 }.
 
 Lemma Inv0 ws : Inv ws mux0.
 Proof.
-  constructor; cbn; try constructor; try (intros; contradiction); try (intros; discriminate); try lia.
+  constructor; cbn; try constructor; try (intros; contradiction); try (intros; discriminate); try lia; try reflexivity.
 Qed.
 
 Lemma deliver_matched s : m_matched (deliver s) = None.
@@ -94,7 +92,7 @@ Qed.
 Lemma Inv_deliver ws s : Inv ws s -> Inv ws (deliver s).
 Proof.
   intros HI. unfold deliver. destruct (m_matched s) as [[c f]|] eqn:M; [|exact HI].
-  destruct HI as [H1 H2 H3 H4 H5 H6 H7 H8 H9 H10 H11 H12 H13 H14].
+  destruct HI as [H1 H2 H3 H5 H6 H7 H8 H9 H10 H11 H12 H14].
   destruct (aget (m_out s) c) as [o|] eqn:O.
   - constructor; simp_m; try assumption.
     + intros id c' Hin. destruct (H7 id c' Hin) as [A [B C]]. repeat split; try assumption. discriminate.
@@ -112,10 +110,6 @@ Proof.
     + rewrite map_app. cbn [map fst]. apply NoDup_snoc; [assumption|]. apply aget_None. exact O.
     + intros c' f' Hin. apply in_app_or in Hin. destruct Hin as [Hin|[Hin|[]]]; [exact (H12 c' f' Hin)|].
       inversion Hin; subst c' f'. exact (H10 c f M).
-    + intros c' Hne. rewrite aget_app in Hne. destruct (aget (m_out s) c') eqn:E.
-      * apply H13. congruence.
-      * cbn [aget] in Hne. destruct (N.eqb_spec c c') as [E1|E1]; [|congruence]. subst c'.
-        destruct (H10 c f M) as [A _]. apply aget_not_None. apply (in_map fst) in A. exact A.
     + intros c' id Hin Ho. rewrite aget_app in Ho. destruct (aget (m_out s) c') eqn:E; [discriminate|].
       cbn [aget] in Ho. destruct (N.eqb_spec c c') as [E1|E1]; [discriminate|].
       destruct (H14 c' id Hin E) as [A|[f' A]]; [left; exact A|]. congruence.
@@ -123,7 +117,7 @@ Qed.
 
 Lemma Inv_route ws s f : Inv ws s -> m_matched s = None -> Inv ws (route ws s f).
 Proof.
-  intros [H1 H2 H3 H4 H5 H6 H7 H8 H9 H10 H11 H12 H13 H14] M.
+  intros [H1 H2 H3 H5 H6 H7 H8 H9 H10 H11 H12 H14] M.
   unfold route. destruct (ws && negb (f_notify f =? 0)) eqn:E.
   - constructor; simp_m; assumption.
   - destruct (aget (m_pending s) (f_id f)) as [c|] eqn:P; [|constructor; simp_m; assumption].
@@ -145,7 +139,7 @@ Lemma Inv_finish ws s c id o :
   Inv ws s -> aget (m_issued s) c = Some id -> aget (m_out s) c = None -> (forall f, o <> OGot f) ->
   Inv ws (finish s c o).
 Proof.
-  intros [H1 H2 H3 H4 H5 H6 H7 H8 H9 H10 H11 H12 H13 H14] Hi Ho Hno.
+  intros [H1 H2 H3 H5 H6 H7 H8 H9 H10 H11 H12 H14] Hi Ho Hno.
   unfold finish. rewrite Hi. pose proof (aget_Some_In _ _ _ Hi) as Iin.
   constructor; simp_m; try assumption.
   - apply NoDup_adel. assumption.
@@ -156,9 +150,6 @@ Proof.
   - rewrite map_app. cbn [map fst]. apply NoDup_snoc; [assumption|]. apply aget_None. exact Ho.
   - intros c' f' Hin. apply in_app_or in Hin. destruct Hin as [Hin|[Hin|[]]]; [exact (H12 c' f' Hin)|].
     inversion Hin. exfalso. eapply Hno. eauto.
-  - intros c' Hne. rewrite aget_app in Hne. destruct (aget (m_out s) c') eqn:E.
-    + apply H13. congruence.
-    + cbn [aget] in Hne. destruct (N.eqb_spec c c') as [E1|E1]; [|congruence]. subst c'. congruence.
   - intros c' id' Hin Ho'. rewrite aget_app in Ho'. destruct (aget (m_out s) c') eqn:E; [discriminate|].
     cbn [aget] in Ho'. destruct (N.eqb_spec c c') as [E1|E1]; [discriminate|].
     destruct (H14 c' id' Hin E) as [A|A]; [|right; exact A]. left.
@@ -166,49 +157,51 @@ Proof.
     subst id'. exfalso. apply E1. exact (assoc_inj _ _ _ _ H5 Iin Hin).
 Qed.
 
-Lemma pending_below ws s id : Inv ws s -> m_next s <= id -> aget (m_pending s) id = None.
+(** a caller that holds no registration ends (refused, or a forwarded notify) *)
+Lemma Inv_out_only ws s c o nx :
+  Inv ws s -> aget (m_issued s) c = None -> aget (m_out s) c = None -> (forall f, o <> OGot f) ->
+  1 <= nx -> nx < two64 ->
+  Inv ws (mkMux nx (m_pending s) (m_issued s) (m_wire s) (m_matched s) (m_out s ++ [(c, o)]) (m_sub s) (m_dropped s)).
 Proof.
-  intros HI Hle. destruct (aget (m_pending s) id) as [c|] eqn:E; [|reflexivity].
-  apply aget_Some_In in E. destruct (I_pend_iss _ _ HI _ _ E) as [A _].
-  destruct (I_iss_range _ _ HI _ _ A). lia.
+  intros [H1 H2 H3 H5 H6 H7 H8 H9 H10 H11 H12 H14] Hi Ho Hno Hn1 Hn2.
+  assert (Hnc : ~ In c (map fst (m_issued s))) by (apply aget_None; exact Hi).
+  constructor; simp_m; try assumption.
+  - intros id c' Hin. destruct (H7 id c' Hin) as [A [B C]]. repeat split; try assumption.
+    rewrite aget_app, B. cbn [aget]. destruct (N.eqb_spec c c') as [E|E]; [|reflexivity].
+    subst c'. exfalso. apply Hnc. apply (in_map fst) in A. exact A.
+  - rewrite map_app. cbn [map fst]. apply NoDup_snoc; [assumption|]. apply aget_None. exact Ho.
+  - intros c' f' Hin. apply in_app_or in Hin. destruct Hin as [Hin|[Hin|[]]]; [exact (H12 c' f' Hin)|].
+    inversion Hin. exfalso. eapply Hno. eauto.
+  - intros c' id' Hin Ho'. rewrite aget_app in Ho'. destruct (aget (m_out s) c') eqn:E; [discriminate|].
+    exact (H14 c' id' Hin E).
 Qed.
 
-Lemma Inv_register ws s c :
-  Inv ws s -> aget (m_issued s) c = None -> N.of_nat (length (m_issued s)) + 2 < two64 ->
-  Inv ws (mkMux ((m_next s + 1) mod two64) (aset (m_pending s) (m_next s) c)
-            (m_issued s ++ [(c, m_next s)]) (m_wire s) (m_matched s) (m_out s) (m_sub s) (m_dropped s)).
+(** an accepted registration of caller c under the id [id] (counter-issued or caller-supplied) *)
+Lemma Inv_register ws s c id nx :
+  Inv ws s -> aget (m_issued s) c = None -> aget (m_out s) c = None ->
+  aget (m_pending s) id = None -> ~ In id (map snd (m_issued s)) -> 1 <= nx -> nx < two64 ->
+  Inv ws (mkMux nx (aset (m_pending s) id c)
+            (m_issued s ++ [(c, id)]) (m_wire s) (m_matched s) (m_out s) (m_sub s) (m_dropped s)).
 Proof.
-  intros HI Hc Hb. pose proof (pending_below ws s (m_next s) HI (N.le_refl _)) as Pn.
-  destruct HI as [H1 H2 H3 H4 H5 H6 H7 H8 H9 H10 H11 H12 H13 H14].
+  intros [H1 H2 H3 H5 H6 H7 H8 H9 H10 H11 H12 H14] Hc Ho Pn Hfresh Hn1 Hn2.
   rewrite (aset_fresh _ _ _ Pn).
-  assert (Hmod : (m_next s + 1) mod two64 = m_next s + 1).
-  { apply N.mod_small. unfold two64 in *. lia. }
-  rewrite Hmod.
   assert (Hnc : ~ In c (map fst (m_issued s))) by (apply aget_None; exact Hc).
   constructor; simp_m; try assumption.
-  - rewrite app_length. cbn [length]. lia.
-  - unfold two64 in *. lia.
   - rewrite map_app. cbn [map fst]. apply NoDup_snoc; assumption.
-  - intros c' id Hin. apply in_app_or in Hin. destruct Hin as [Hin|[Hin|[]]].
-    + destruct (H4 c' id Hin). lia.
-    + inversion Hin; subst c' id. lia.
-  - rewrite map_app. cbn [map snd]. apply NoDup_snoc; [assumption|].
-    intros Hin. apply in_map_iff in Hin. destruct Hin as [[c' id] [E Hin]]. cbn [snd] in E. subst id.
-    destruct (H4 c' _ Hin). lia.
+  - rewrite map_app. cbn [map snd]. apply NoDup_snoc; assumption.
   - rewrite map_app. cbn [map fst]. apply NoDup_snoc; [assumption|]. apply aget_None. exact Pn.
-  - intros id c' Hin. apply in_app_or in Hin. destruct Hin as [Hin|[Hin|[]]].
-    + destruct (H7 id c' Hin) as [A [B C]]. repeat split; try assumption. apply in_or_app. left. exact A.
-    + inversion Hin; subst id c'. repeat split.
+  - intros id' c' Hin. apply in_app_or in Hin. destruct Hin as [Hin|[Hin|[]]].
+    + destruct (H7 id' c' Hin) as [A [B C]]. repeat split; try assumption. apply in_or_app. left. exact A.
+    + inversion Hin; subst id' c'. repeat split.
       * apply in_or_app. right. left. reflexivity.
-      * destruct (aget (m_out s) c) eqn:E; [|reflexivity]. exfalso. apply (H13 c); congruence.
+      * exact Ho.
       * intros f Hm. destruct (H10 c f Hm) as [A _]. apply Hnc. apply (in_map fst) in A. exact A.
-  - intros c' id Hin. apply in_or_app. left. exact (H8 c' id Hin).
+  - intros c' id' Hin. apply in_or_app. left. exact (H8 c' id' Hin).
   - intros c' f Hm. destruct (H10 c' f Hm) as [A B]. split; [apply in_or_app; left; exact A|exact B].
   - intros c' f Hin. destruct (H12 c' f Hin) as [A B]. split; [apply in_or_app; left; exact A|exact B].
-  - intros c' Hne. rewrite aget_app. specialize (H13 c' Hne). destruct (aget (m_issued s) c'); congruence.
-  - intros c' id Hin Ho. apply in_app_or in Hin. destruct Hin as [Hin|[Hin|[]]].
-    + destruct (H14 c' id Hin Ho) as [A|A]; [|right; exact A]. left. rewrite aget_app, A. reflexivity.
-    + inversion Hin; subst c' id. left. rewrite aget_app, Pn. cbn [aget]. rewrite N.eqb_refl. reflexivity.
+  - intros c' id' Hin Ho'. apply in_app_or in Hin. destruct Hin as [Hin|[Hin|[]]].
+    + destruct (H14 c' id' Hin Ho') as [A|A]; [|right; exact A]. left. rewrite aget_app, A. reflexivity.
+    + inversion Hin; subst c' id'. left. rewrite aget_app, Pn. cbn [aget]. rewrite N.eqb_refl. reflexivity.
 Qed.
 
 Lemma Inv_write ws s c id :
@@ -216,19 +209,40 @@ Lemma Inv_write ws s c id :
   Inv ws (mkMux (m_next s) (m_pending s) (m_issued s) (m_wire s ++ [(c, id)]) (m_matched s)
                 (m_out s) (m_sub s) (m_dropped s)).
 Proof.
-  intros [H1 H2 H3 H4 H5 H6 H7 H8 H9 H10 H11 H12 H13 H14] Hi Hw.
+  intros [H1 H2 H3 H5 H6 H7 H8 H9 H10 H11 H12 H14] Hi Hw.
   constructor; simp_m; try assumption.
   - intros c' id' Hin. apply in_app_or in Hin. destruct Hin as [Hin|[Hin|[]]]; [exact (H8 c' id' Hin)|].
     inversion Hin; subst c' id'. apply aget_Some_In. exact Hi.
   - rewrite map_app. cbn [map fst]. apply NoDup_snoc; [assumption|]. apply aget_None. exact Hw.
 Qed.
 
-Lemma Inv_step ws s st :
-  Inv ws s -> N.of_nat (length (m_issued s)) + 2 < two64 -> Inv ws (mstep ws s st).
+Lemma enabled_new s c :
+  negb (isSome (aget (m_issued s) c)) && negb (isSome (aget (m_out s) c)) = true ->
+  aget (m_issued s) c = None /\ aget (m_out s) c = None.
 Proof.
-  intros HI Hb. unfold mstep. destruct (enabled s st) eqn:En; cbn [negb]; [|exact HI].
-  destruct st as [c|c|f|a| |c|c]; cbn [enabled] in En.
-  - apply Inv_register; [exact HI| |exact Hb]. apply negb_true_iff, isSome_false in En. exact En.
+  intros En. apply andb_true_iff in En. destruct En as [E1 E2].
+  apply negb_true_iff, isSome_false in E1. apply negb_true_iff, isSome_false in E2. tauto.
+Qed.
+
+Lemma fresh_reg_id s id :
+  isSome (aget (m_pending s) id) || negb (memN id (map snd (m_issued s))) = true ->
+  aget (m_pending s) id = None -> ~ In id (map snd (m_issued s)).
+Proof.
+  intros F P. rewrite P in F. cbn [isSome orb] in F. apply negb_true_iff in F. apply memN_false. exact F.
+Qed.
+
+Lemma Inv_step ws s st :
+  Inv ws s -> m_next s + 1 < two64 -> fresh_reg s st = true -> Inv ws (mstep ws s st).
+Proof.
+  intros HI Hb Hf. unfold mstep. destruct (enabled s st) eqn:En; cbn [negb]; [|exact HI].
+  pose proof (I_next _ _ HI) as Hn1.
+  assert (Hmod : (m_next s + 1) mod two64 = m_next s + 1) by (apply N.mod_small; exact Hb).
+  destruct st as [c|c|f|a| |c|c|c id|c]; cbn [enabled] in En; cbn [fresh_reg] in Hf.
+  - apply enabled_new in En. destruct En as [Ei Eo]. rewrite Hmod.
+    destruct (aget (m_pending s) (m_next s)) as [o|] eqn:P; cbn [isSome].
+    + apply Inv_out_only; try assumption; try lia. intros f; discriminate.
+    + apply Inv_register; try assumption; try lia.
+      cbn [isSome orb] in Hf. apply negb_true_iff in Hf. apply memN_false in Hf. exact Hf.
   - destruct (aget (m_issued s) c) as [id|] eqn:Hi; [|exact HI].
     apply andb_true_iff in En. destruct En as [En _]. apply andb_true_iff in En. destruct En as [_ En].
     apply negb_true_iff, isSome_false in En. apply Inv_write; assumption.
@@ -245,45 +259,131 @@ Proof.
     apply negb_true_iff, isSome_false in En2. apply isSome_true in En1.
     destruct (aget (m_issued s) c) as [id|] eqn:Hw; [|congruence].
     eapply Inv_finish; try eassumption. intros f; discriminate.
+  - apply enabled_new in En. destruct En as [Ei Eo]. pose proof (I_small _ _ HI).
+    destruct (aget (m_pending s) id) as [o|] eqn:P; cbn [isSome].
+    + apply Inv_out_only; try assumption. intros f; discriminate.
+    + apply Inv_register; try assumption.
+      cbn [isSome orb] in Hf. apply negb_true_iff in Hf. apply memN_false in Hf. exact Hf.
+  - apply enabled_new in En. destruct En as [Ei Eo]. pose proof (I_small _ _ HI).
+    apply Inv_out_only; try assumption. intros f; discriminate.
 Qed.
 
-Lemma issued_len_step ws s st :
-  (length (m_issued (mstep ws s st)) <= S (length (m_issued s)))%nat.
+Lemma deliver_next s : m_next (deliver s) = m_next s.
+Proof. unfold deliver. destruct (m_matched s) as [[c f]|]; [destruct (aget (m_out s) c)|]; reflexivity. Qed.
+Lemma route_next ws s f : m_next (route ws s f) = m_next s.
 Proof.
-  unfold mstep. destruct (negb (enabled s st)); [lia|].
-  destruct st as [c|c|f|a| |c|c]; simp_m.
-  - rewrite app_length. cbn [length]. lia.
+  unfold route. destruct (ws && negb (f_notify f =? 0)); [reflexivity|].
+  destruct (aget (m_pending s) (f_id f)); reflexivity.
+Qed.
+Lemma finish_next s c o : m_next (finish s c o) = m_next s.
+Proof. unfold finish. destruct (aget (m_issued s) c); reflexivity. Qed.
+
+Lemma next_step ws s st : m_next s + 1 < two64 -> m_next (mstep ws s st) <= m_next s + 1.
+Proof.
+  intros Hb. unfold mstep. destruct (negb (enabled s st)); [lia|].
+  assert (Hmod : (m_next s + 1) mod two64 = m_next s + 1) by (apply N.mod_small; exact Hb).
+  destruct st as [c|c|f|a| |c|c|c id|c].
+  - destruct (isSome (aget (m_pending s) (m_next s))); simp_m; lia.
   - destruct (aget (m_issued s) c); simp_m; lia.
-  - unfold route, deliver. destruct (m_matched s) as [[c0 f0]|]; [destruct (aget (m_out s) c0)|]; simp_m;
-      (destruct (ws && negb (f_notify f =? 0)); [simp_m; lia|]);
-      match goal with |- context [aget ?p ?i] => destruct (aget p i) end; simp_m; lia.
-  - destruct (frame_of s a) as [f|]; [|lia].
-    unfold route, deliver. destruct (m_matched s) as [[c0 f0]|]; [destruct (aget (m_out s) c0)|]; simp_m;
-      (destruct (ws && negb (f_notify f =? 0)); [simp_m; lia|]);
-      match goal with |- context [aget ?p ?i] => destruct (aget p i) end; simp_m; lia.
-  - unfold deliver. destruct (m_matched s) as [[c0 f0]|]; [destruct (aget (m_out s) c0)|]; simp_m; lia.
-  - unfold finish. destruct (aget (m_issued s) c); simp_m; lia.
-  - unfold finish. destruct (aget (m_issued s) c); simp_m; lia.
+  - rewrite route_next, deliver_next. lia.
+  - destruct (frame_of s a); [rewrite route_next, deliver_next|]; lia.
+  - rewrite deliver_next. lia.
+  - rewrite finish_next. lia.
+  - rewrite finish_next. lia.
+  - destruct (isSome (aget (m_pending s) id)); simp_m; lia.
+  - simp_m. lia.
 Qed.
 
-(** every state reachable by fewer than 2^64 - 2 steps satisfies the invariant *)
+(** every state reachable by fewer than 2^64 - 2 steps in which no accepted
+    registration reuses an id satisfies the invariant *)
 Lemma Inv_run ws l : forall s,
-  Inv ws s -> N.of_nat (length (m_issued s) + length l) + 2 < two64 -> Inv ws (run ws s l).
+  Inv ws s -> m_next s + N.of_nat (length l) < two64 -> all_fresh ws s l = true -> Inv ws (run ws s l).
 Proof.
-  induction l as [|st l IH]; intros s HI Hb; cbn [run fold_left]; [exact HI|].
+  induction l as [|st l IH]; intros s HI Hb Hf; cbn [run fold_left]; [exact HI|].
+  cbn [all_fresh] in Hf. apply andb_true_iff in Hf. destruct Hf as [Hf1 Hf2]. cbn [length] in Hb.
   apply IH.
-  - apply Inv_step; [exact HI|]. cbn [length] in Hb. lia.
-  - pose proof (issued_len_step ws s st). cbn [length] in Hb. lia.
+  - apply Inv_step; [exact HI|lia|exact Hf1].
+  - pose proof (next_step ws s st). lia.
+  - exact Hf2.
 Qed.
 
-Lemma Inv_reach ws l : N.of_nat (length l) + 2 < two64 -> Inv ws (run ws mux0 l).
-Proof. intros Hb. apply Inv_run; [apply Inv0|]. cbn [mux0 m_issued length]. exact Hb. Qed.
+Lemma Inv_reach ws l : N.of_nat (length l) + 2 < two64 -> all_fresh ws mux0 l = true -> Inv ws (run ws mux0 l).
+Proof. intros Hb Hf. apply Inv_run; [apply Inv0| |exact Hf]. cbn [mux0 m_next]. lia. Qed.
+
+(** ** without caller-supplied ids every registration is fresh *)
+
+Definition Low (s : mux) : Prop := forall c id, In (c, id) (m_issued s) -> id < m_next s.
+
+Lemma deliver_issued s : m_issued (deliver s) = m_issued s.
+Proof. unfold deliver. destruct (m_matched s) as [[c f]|]; [destruct (aget (m_out s) c)|]; reflexivity. Qed.
+Lemma route_issued ws s f : m_issued (route ws s f) = m_issued s.
+Proof.
+  unfold route. destruct (ws && negb (f_notify f =? 0)); [reflexivity|].
+  destruct (aget (m_pending s) (f_id f)); reflexivity.
+Qed.
+Lemma finish_issued s c o : m_issued (finish s c o) = m_issued s.
+Proof. unfold finish. destruct (aget (m_issued s) c); reflexivity. Qed.
+
+Lemma Low_step ws s st : Low s -> m_next s + 1 < two64 -> is_forward st = false -> Low (mstep ws s st).
+Proof.
+  intros HL Hb Hnf. unfold mstep. destruct (negb (enabled s st)); [exact HL|].
+  assert (Hmod : (m_next s + 1) mod two64 = m_next s + 1) by (apply N.mod_small; exact Hb).
+  unfold Low in *.
+  destruct st as [c|c|f|a| |c|c|c id|c]; try discriminate.
+  - destruct (isSome (aget (m_pending s) (m_next s))); simp_m; rewrite Hmod; intros c' id Hin.
+    + specialize (HL c' id Hin). lia.
+    + apply in_app_or in Hin. destruct Hin as [Hin|[Hin|[]]]; [specialize (HL c' id Hin); lia|].
+      inversion Hin; subst. lia.
+  - destruct (aget (m_issued s) c); simp_m; exact HL.
+  - rewrite route_next, route_issued, deliver_next, deliver_issued. exact HL.
+  - destruct (frame_of s a); [rewrite route_next, route_issued, deliver_next, deliver_issued|]; exact HL.
+  - rewrite deliver_next, deliver_issued. exact HL.
+  - rewrite finish_next, finish_issued. exact HL.
+  - rewrite finish_next, finish_issued. exact HL.
+Qed.
+
+Lemma Low_pending ws s : Inv ws s -> Low s -> aget (m_pending s) (m_next s) = None.
+Proof.
+  intros HI HL. destruct (aget (m_pending s) (m_next s)) as [c|] eqn:E; [|reflexivity].
+  apply aget_Some_In in E. destruct (I_pend_iss _ _ HI _ _ E) as [A _]. specialize (HL _ _ A). lia.
+Qed.
+
+Lemma Low_fresh s st : Low s -> is_forward st = false -> fresh_reg s st = true.
+Proof.
+  intros HL Hnf. destruct st; try reflexivity; try discriminate. cbn [fresh_reg].
+  apply orb_true_iff. right. apply negb_true_iff. apply memN_false. intros Hin.
+  apply in_map_iff in Hin. destruct Hin as [[c' id] [E Hin]]. cbn [snd] in E. subst id.
+  specialize (HL _ _ Hin). lia.
+Qed.
+
+Lemma nofwd_run ws l : forall s,
+  Inv ws s -> Low s -> m_next s + N.of_nat (length l) < two64 -> existsb is_forward l = false ->
+  all_fresh ws s l = true /\ Low (run ws s l).
+Proof.
+  induction l as [|st l IH]; intros s HI HL Hb Hnf; cbn [run fold_left all_fresh]; [split; [reflexivity|exact HL]|].
+  cbn [existsb] in Hnf. apply orb_false_iff in Hnf. destruct Hnf as [Hnf1 Hnf2]. cbn [length] in Hb.
+  pose proof (Low_fresh s st HL Hnf1) as Hf. rewrite Hf. cbn [andb].
+  apply IH.
+  - apply Inv_step; [exact HI|lia|exact Hf].
+  - apply Low_step; [exact HL|lia|exact Hnf1].
+  - pose proof (next_step ws s st). lia.
+  - exact Hnf2.
+Qed.
+
+Lemma Low0 : Low mux0.
+Proof. intros c id H. contradiction. Qed.
+
+Lemma nofwd_all_fresh ws l : N.of_nat (length l) + 2 < two64 -> existsb is_forward l = false ->
+  all_fresh ws mux0 l = true.
+Proof.
+  intros Hb Hnf. apply (nofwd_run ws l mux0 (Inv0 ws) Low0); [cbn [mux0 m_next]; lia|exact Hnf].
+Qed.
 
 (** * the named properties, for every reachable state *)
 
-Lemma ids_fresh_inv ws s id c : Inv ws s -> In (id, c) (m_pending s) -> id < m_next s.
+Lemma ids_fresh_inv ws s id c : Inv ws s -> Low s -> In (id, c) (m_pending s) -> id < m_next s.
 Proof.
-  intros HI Hin. destruct (I_pend_iss _ _ HI _ _ Hin) as [A _]. destruct (I_iss_range _ _ HI _ _ A). assumption.
+  intros HI HL Hin. destruct (I_pend_iss _ _ HI _ _ Hin) as [A _]. exact (HL _ _ A).
 Qed.
 
 Lemma sub_nodup_snd (iss l : list (N * N)) :
@@ -322,15 +422,10 @@ Proof. intros M. unfold deliver. rewrite M. reflexivity. Qed.
 
 Lemma deliver_pending s : m_pending (deliver s) = m_pending s.
 Proof. unfold deliver. destruct (m_matched s) as [[c f]|]; [destruct (aget (m_out s) c)|]; reflexivity. Qed.
-Lemma deliver_issued s : m_issued (deliver s) = m_issued s.
-Proof. unfold deliver. destruct (m_matched s) as [[c f]|]; [destruct (aget (m_out s) c)|]; reflexivity. Qed.
 Lemma deliver_wire s : m_wire (deliver s) = m_wire s.
 Proof. unfold deliver. destruct (m_matched s) as [[c f]|]; [destruct (aget (m_out s) c)|]; reflexivity. Qed.
 Lemma deliver_sub s : m_sub (deliver s) = m_sub s.
 Proof. unfold deliver. destruct (m_matched s) as [[c f]|]; [destruct (aget (m_out s) c)|]; reflexivity. Qed.
-Lemma deliver_next s : m_next (deliver s) = m_next s.
-Proof. unfold deliver. destruct (m_matched s) as [[c f]|]; [destruct (aget (m_out s) c)|]; reflexivity. Qed.
-
 Lemma mstep_recv ws s f : mstep ws s (Recv f) = route ws (deliver s) f.
 Proof. reflexivity. Qed.
 
@@ -387,12 +482,12 @@ Proof. intros E. unfold mstep. rewrite E. reflexivity. Qed.
 Lemma reply_tags_app a b : reply_tags (a ++ b) = reply_tags a ++ reply_tags b.
 Proof.
   induction a as [|st a IH]; cbn [app reply_tags]; [reflexivity|].
-  destruct st as [c|c|f|[k v|i v|k v|i v]| |c|c]; cbn [app]; rewrite IH; reflexivity.
+  destruct st as [c|c|f|[k v|i v|k v|i v]| |c|c|c i|c]; cbn [app]; rewrite IH; reflexivity.
 Qed.
 Lemma notify_tags_app a b : notify_tags (a ++ b) = notify_tags a ++ notify_tags b.
 Proof.
   induction a as [|st a IH]; cbn [app notify_tags]; [reflexivity|].
-  destruct st as [c|c|f|[k v|i v|k v|i v]| |c|c]; cbn [app]; rewrite IH; reflexivity.
+  destruct st as [c|c|f|[k v|i v|k v|i v]| |c|c|c i|c]; cbn [app]; rewrite IH; reflexivity.
 Qed.
 Lemma replied_app a b c : replied (a ++ b) c = replied a c || replied b c.
 Proof. unfold replied. apply existsb_app. Qed.
@@ -407,8 +502,22 @@ Record Hist (ws : bool) (h : list step) (s : mux) : Prop := mkHist {
   H_to : forall c, In (c, OTimeout) (m_out s) -> timed_out h c = true;
   H_ca : forall c, In (c, OCancel) (m_out s) -> cancelled h c = true;
   H_rep : forall c, replied h c = true -> aget (m_out s) c <> None \/ exists f, m_matched s = Some (c, f);
+  H_ref : forall c, In (c, ORefused) (m_out s) -> may_refuse h c = true;
+  H_nfy : forall c, In (c, ONotified) (m_out s) -> notify_forwarded h c = true;
+  H_low : existsb is_forward h = false -> Low s;
   H_sub : map f_tag (m_sub s) = if ws then notify_tags h else []
 }.
+
+Lemma may_refuse_mono a b c : may_refuse a c = true -> may_refuse (a ++ b) c = true.
+Proof.
+  unfold may_refuse. rewrite !existsb_app. intros H. apply orb_true_iff in H. destruct H as [H|H].
+  - rewrite H. reflexivity.
+  - apply andb_true_iff in H. destruct H as [H1 H2]. rewrite H1, H2. cbn [orb andb]. apply orb_true_r.
+Qed.
+Lemma notify_forwarded_mono a b c : notify_forwarded a c = true -> notify_forwarded (a ++ b) c = true.
+Proof. unfold notify_forwarded. rewrite existsb_app. intros H. rewrite H. reflexivity. Qed.
+Lemma nofwd_app_l a b : existsb is_forward (a ++ b) = false -> existsb is_forward a = false.
+Proof. rewrite existsb_app. intros H. apply orb_false_iff in H. tauto. Qed.
 
 Lemma Hist0 ws : Hist ws [] mux0.
 Proof.
@@ -417,23 +526,29 @@ Proof.
   - intros c H; contradiction.
   - intros c H; contradiction.
   - intros c H; discriminate.
+  - intros c H; contradiction.
+  - intros c H; contradiction.
+  - intros _. exact Low0.
   - destruct ws; reflexivity.
 Qed.
 
 Lemma Hist_deliver ws h s : Hist ws h s -> Hist ws h (deliver s).
 Proof.
-  intros [T1 T2 T3 T4 T5]. unfold deliver. destruct (m_matched s) as [[c f]|] eqn:M; [|constructor; rewrite ?M; assumption].
+  intros HH. unfold deliver. destruct (m_matched s) as [[c f]|] eqn:M; [|exact HH].
+  destruct HH as [T1 T2 T3 T4 T6 T7 T8 T5].
   destruct (aget (m_out s) c) as [o|] eqn:O; constructor; simp_m; try assumption.
   - intros c' f' [H|H]; [discriminate|]. apply T1. right. exact H.
-  - intros c' Hr. destruct (T4 c' Hr) as [A|[f' A]]; [left; exact A|]. inversion A; subst c' f'. left. congruence.
+  - intros c' Hr. destruct (T4 c' Hr) as [A|[f' A]]; [left; exact A|]. rewrite M in A. inversion A; subst c' f'. left. congruence.
   - intros c' f' [H|H]; [discriminate|]. apply in_app_or in H. destruct H as [H|[H|[]]].
     + apply T1. right. exact H.
-    + inversion H; subst c' f'. apply T1. left. reflexivity.
+    + inversion H; subst c' f'. apply T1. left. exact M.
   - intros c' H. apply in_app_or in H. destruct H as [H|[H|[]]]; [exact (T2 c' H)|discriminate].
   - intros c' H. apply in_app_or in H. destruct H as [H|[H|[]]]; [exact (T3 c' H)|discriminate].
   - intros c' Hr. left. rewrite aget_app. destruct (T4 c' Hr) as [A|[f' A]].
     + destruct (aget (m_out s) c'); congruence.
-    + inversion A; subst c' f'. rewrite O. cbn [aget]. rewrite N.eqb_refl. discriminate.
+    + rewrite M in A. inversion A; subst c' f'. rewrite O. cbn [aget]. rewrite N.eqb_refl. discriminate.
+  - intros c' H. apply in_app_or in H. destruct H as [H|[H|[]]]; [exact (T6 c' H)|discriminate].
+  - intros c' H. apply in_app_or in H. destruct H as [H|[H|[]]]; [exact (T7 c' H)|discriminate].
 Qed.
 
 (** steps that neither add a reply nor a notification to the history *)
@@ -450,21 +565,35 @@ Qed.
 Lemma Hist_weaken ws h st s :
   quiet st = true -> Hist ws h s -> Hist ws (h ++ [st]) s.
 Proof.
-  intros Q [T1 T2 T3 T4 T5]. constructor.
+  intros Q [T1 T2 T3 T4 T6 T7 T8 T5]. constructor.
   - intros c f H. destruct (quiet_hist st h c Q) as [E _]. rewrite E. exact (T1 c f H).
   - intros c H. rewrite timed_out_app, (T2 c H). reflexivity.
   - intros c H. rewrite cancelled_app, (T3 c H). reflexivity.
   - intros c H. destruct (quiet_hist st h c Q) as [_ [_ E]]. rewrite E in H. exact (T4 c H).
+  - intros c H. apply may_refuse_mono. exact (T6 c H).
+  - intros c H. apply notify_forwarded_mono. exact (T7 c H).
+  - intros E. exact (T8 (nofwd_app_l _ _ E)).
   - destruct (quiet_hist st h 0 Q) as [_ [E _]]. rewrite E. exact T5.
 Qed.
 
-Lemma Hist_finish ws h s c o st :
-  Hist ws (h ++ [st]) s -> (forall f, o <> OGot f) ->
-  (o = OTimeout -> timed_out (h ++ [st]) c = true) -> (o = OCancel -> cancelled (h ++ [st]) c = true) ->
-  Hist ws (h ++ [st]) (finish s c o).
+(** the state changes, the outcomes, the matched frame and the subscriber do not *)
+Lemma Hist_same ws h s s' :
+  Hist ws h s -> m_matched s' = m_matched s -> m_out s' = m_out s -> m_sub s' = m_sub s ->
+  (existsb is_forward h = false -> Low s') -> Hist ws h s'.
 Proof.
-  intros [T1 T2 T3 T4 T5] Hno Hto Hca. unfold finish. destruct (aget (m_issued s) c) as [id|]; [|constructor; assumption].
-  constructor; simp_m; try assumption.
+  intros [T1 T2 T3 T4 T6 T7 T8 T5] E1 E2 E3 HL. constructor; rewrite ?E1, ?E2, ?E3; assumption.
+Qed.
+
+(** one call ends with an outcome other than a delivery *)
+Lemma Hist_out ws h s s' c o :
+  Hist ws h s -> m_matched s' = m_matched s -> m_out s' = m_out s ++ [(c, o)] -> m_sub s' = m_sub s ->
+  (existsb is_forward h = false -> Low s') ->
+  (forall f, o <> OGot f) ->
+  (o = OTimeout -> timed_out h c = true) -> (o = OCancel -> cancelled h c = true) ->
+  (o = ORefused -> may_refuse h c = true) -> (o = ONotified -> notify_forwarded h c = true) ->
+  Hist ws h s'.
+Proof.
+  intros [T1 T2 T3 T4 T6 T7 T8 T5] E1 E2 E3 HL Hno Hto Hca Hre Hnf. constructor; rewrite ?E1, ?E2, ?E3; try assumption.
   - intros c' f' [H|H]; [apply T1; left; exact H|]. apply in_app_or in H. destruct H as [H|[H|[]]].
     + apply T1. right. exact H.
     + inversion H. exfalso. eapply Hno. eauto.
@@ -474,6 +603,10 @@ Proof.
     inversion H; subst c' o. apply Hca. reflexivity.
   - intros c' Hr. destruct (T4 c' Hr) as [A|A]; [|right; exact A]. left. rewrite aget_app.
     destruct (aget (m_out s) c'); congruence.
+  - intros c' H. apply in_app_or in H. destruct H as [H|[H|[]]]; [exact (T6 c' H)|].
+    inversion H; subst c' o. apply Hre. reflexivity.
+  - intros c' H. apply in_app_or in H. destruct H as [H|[H|[]]]; [exact (T7 c' H)|].
+    inversion H; subst c' o. apply Hnf. reflexivity.
 Qed.
 
 Lemma tag_mod k v : k < 4096 -> tag_of k v mod 4096 = k.
@@ -489,8 +622,9 @@ Proof.
   pose proof (deliver_matched s) as Md.
   assert (Hfd : frame_of (deliver s) a = Some f).
   { destruct a; cbn [frame_of] in *; rewrite ?deliver_wire, ?deliver_issued; exact Hf. }
-  revert HId HHd Md Hfd. generalize (deliver s). clear s HI HH Hf. intros s HI [T1 T2 T3 T4 T5] M Hf.
-  unfold step_ok in Hok. cbn [is_raw negb andb] in Hok. apply andb_true_iff in Hok. destruct Hok as [Hc Hw].
+  revert HId HHd Md Hfd. generalize (deliver s). clear s HI HH Hf. intros s HI [T1 T2 T3 T4 T6 T7 T8 T5] M Hf.
+  unfold step_ok in Hok. cbn [is_raw negb andb] in Hok. apply andb_true_iff in Hok. destruct Hok as [Hok _].
+  apply andb_true_iff in Hok. destruct Hok as [Hc Hw].
   unfold unknown_k in Hn.
   destruct a as [k v|id v|k v|id v]; cbn [frame_of] in Hf.
   - (* reply *)
@@ -512,6 +646,9 @@ Proof.
       * intros c H. rewrite replied_app in H. apply orb_true_iff in H. destruct H as [H|H].
         -- destruct (T4 c H) as [B|[f B]]; [left; exact B|congruence].
         -- cbn in H. rewrite orb_false_r in H. apply N.eqb_eq in H. subst c. right. eexists. reflexivity.
+      * intros c H. apply may_refuse_mono. exact (T6 c H).
+      * intros c H. apply notify_forwarded_mono. exact (T7 c H).
+      * intros E. exact (T8 (nofwd_app_l _ _ E)).
       * rewrite notify_tags_app. cbn [notify_tags]. rewrite app_nil_r. exact T5.
     + constructor; simp_m.
       * intros c f H. destruct (T1 c f H) as [A1 A2]. split; [exact A1|].
@@ -521,6 +658,9 @@ Proof.
       * intros c H. rewrite replied_app in H. apply orb_true_iff in H. destruct H as [H|H]; [exact (T4 c H)|].
         cbn in H. rewrite orb_false_r in H. apply N.eqb_eq in H. subst c. left. intros Ho.
         destruct (I_live _ _ HI _ _ W Ho) as [B|[f B]]; congruence.
+      * intros c H. apply may_refuse_mono. exact (T6 c H).
+      * intros c H. apply notify_forwarded_mono. exact (T7 c H).
+      * intros E. exact (T8 (nofwd_app_l _ _ E)).
       * rewrite notify_tags_app. cbn [notify_tags]. rewrite app_nil_r. exact T5.
   - (* unknown id *)
     destruct (memN id (map snd (m_issued s))) eqn:Mi; [discriminate|]. inversion Hf; subst f; clear Hf.
@@ -535,6 +675,9 @@ Proof.
     + intros c H. rewrite timed_out_app, (T2 c H). reflexivity.
     + intros c H. rewrite cancelled_app, (T3 c H). reflexivity.
     + intros c H. rewrite replied_app in H. cbn in H. rewrite orb_false_r in H. exact (T4 c H).
+    + intros c H. apply may_refuse_mono. exact (T6 c H).
+    + intros c H. apply notify_forwarded_mono. exact (T7 c H).
+    + intros E. exact (T8 (nofwd_app_l _ _ E)).
     + rewrite notify_tags_app. cbn [notify_tags]. rewrite app_nil_r. exact T5.
   - (* notification reusing an in-flight id *)
     destruct (aget (m_wire s) k) as [id|] eqn:W; [|discriminate]. inversion Hf; subst f; clear Hf.
@@ -546,6 +689,9 @@ Proof.
     + intros c H. rewrite timed_out_app, (T2 c H). reflexivity.
     + intros c H. rewrite cancelled_app, (T3 c H). reflexivity.
     + intros c H. rewrite replied_app in H. cbn in H. rewrite orb_false_r in H. exact (T4 c H).
+    + intros c H. apply may_refuse_mono. exact (T6 c H).
+    + intros c H. apply notify_forwarded_mono. exact (T7 c H).
+    + intros E. exact (T8 (nofwd_app_l _ _ E)).
     + rewrite map_app, T5, notify_tags_app. reflexivity.
   - inversion Hf; subst f; clear Hf.
     cbn [is_notify negb] in Hw. rewrite orb_false_r in Hw. subst ws.
@@ -556,49 +702,110 @@ Proof.
     + intros c H. rewrite timed_out_app, (T2 c H). reflexivity.
     + intros c H. rewrite cancelled_app, (T3 c H). reflexivity.
     + intros c H. rewrite replied_app in H. cbn in H. rewrite orb_false_r in H. exact (T4 c H).
+    + intros c H. apply may_refuse_mono. exact (T6 c H).
+    + intros c H. apply notify_forwarded_mono. exact (T7 c H).
+    + intros E. exact (T8 (nofwd_app_l _ _ E)).
     + rewrite map_app, T5, notify_tags_app. reflexivity.
 Qed.
 
+Lemma existsb_snoc_true {A} (f : A -> bool) h x : f x = true -> existsb f (h ++ [x]) = true.
+Proof. intros H. rewrite existsb_app. cbn [existsb]. rewrite H. cbn [orb]. apply orb_true_r. Qed.
+
 Lemma Hist_step ws n h s st :
   Inv ws s -> Hist ws h s -> n < unknown_k -> step_ok ws n st = true -> enabled s st = true ->
+  m_next s + 1 < two64 ->
   Hist ws (h ++ [st]) (mstep ws s st).
 Proof.
-  intros HI HH Hn Hok En. unfold mstep. rewrite En. cbn [negb].
-  destruct st as [c|c|f|a| |c|c].
-  - pose proof (Hist_weaken ws h (Register c) s eq_refl HH) as [T1 T2 T3 T4 T5]. constructor; simp_m; assumption.
-  - pose proof (Hist_weaken ws h (Write c) s eq_refl HH) as [T1 T2 T3 T4 T5].
-    destruct (aget (m_issued s) c); constructor; simp_m; assumption.
-  - discriminate.
+  intros HI HH Hn Hok En Hb. unfold mstep. rewrite En. cbn [negb].
+  assert (Hmod : (m_next s + 1) mod two64 = m_next s + 1) by (apply N.mod_small; exact Hb).
+  destruct st as [c|c|f|a| |c|c|c id|c].
+  - pose proof (Hist_weaken ws h (Register c) s eq_refl HH) as HHw.
+    cbn [enabled] in En. apply enabled_new in En. destruct En as [Ei Eo].
+    destruct (aget (m_pending s) (m_next s)) as [o|] eqn:P; cbn [isSome].
+    + eapply (Hist_out ws _ s _ c ORefused HHw); simp_m; try reflexivity.
+      * intros E. pose proof (H_low _ _ _ HHw E) as L. intros c' id' Hin. simp_m. rewrite Hmod.
+        specialize (L c' id' Hin). lia.
+      * intros f X; discriminate X.
+      * intros X; discriminate X.
+      * intros X; discriminate X.
+      * intros _. destruct (existsb is_forward h) eqn:F.
+        -- unfold may_refuse. apply orb_true_iff. right. apply andb_true_iff. split.
+           ++ apply existsb_snoc_true. apply N.eqb_refl.
+           ++ rewrite existsb_app, F. reflexivity.
+        -- exfalso. pose proof (Low_pending ws s HI (H_low _ _ _ HH F)) as Q. congruence.
+      * intros X; discriminate X.
+    + eapply (Hist_same ws _ s _ HHw); simp_m; try reflexivity.
+      intros E. pose proof (H_low _ _ _ HHw E) as L. intros c' id' Hin. simp_m. rewrite Hmod.
+      apply in_app_or in Hin. destruct Hin as [Hin|[Hin|[]]]; [specialize (L c' id' Hin); lia|].
+      inversion Hin; subst. lia.
+  - pose proof (Hist_weaken ws h (Write c) s eq_refl HH) as HHw.
+    destruct (aget (m_issued s) c); [|exact HHw].
+    eapply (Hist_same ws _ s _ HHw); simp_m; try reflexivity. intros E. exact (H_low _ _ _ HHw E).
+  - unfold step_ok in Hok. cbn [is_raw negb andb] in Hok. discriminate.
   - cbn [enabled] in En. destruct (frame_of s a) as [f|] eqn:Hf; [|discriminate].
     eapply Hist_srv; eassumption.
   - apply Hist_deliver. apply Hist_weaken; [reflexivity|exact HH].
-  - apply Hist_finish.
-    + apply Hist_weaken; [reflexivity|exact HH].
-    + intros f; discriminate.
-    + intros _. rewrite timed_out_app. cbn. rewrite N.eqb_refl. apply orb_true_r.
-    + discriminate.
-  - apply Hist_finish.
-    + apply Hist_weaken; [reflexivity|exact HH].
-    + intros f; discriminate.
-    + discriminate.
-    + intros _. rewrite cancelled_app. cbn. rewrite N.eqb_refl. apply orb_true_r.
+  - pose proof (Hist_weaken ws h (Timeout c) s eq_refl HH) as HHw.
+    cbn [enabled] in En. apply andb_true_iff in En. destruct En as [En1 _]. apply isSome_true in En1.
+    destruct (aget (m_wire s) c) as [id|] eqn:Hw; [|congruence].
+    apply aget_Some_In in Hw. apply (I_wire _ _ HI) in Hw. apply (In_aget _ _ _ (I_iss_c _ _ HI)) in Hw.
+    unfold finish. rewrite Hw.
+    eapply (Hist_out ws _ s _ c OTimeout HHw); simp_m; try reflexivity.
+    + intros E. exact (H_low _ _ _ HHw E).
+    + intros f X; discriminate X.
+    + intros _. unfold timed_out. apply existsb_snoc_true. apply N.eqb_refl.
+    + intros X; discriminate X.
+    + intros X; discriminate X.
+    + intros X; discriminate X.
+  - pose proof (Hist_weaken ws h (Cancel c) s eq_refl HH) as HHw.
+    cbn [enabled] in En. apply andb_true_iff in En. destruct En as [En1 _]. apply isSome_true in En1.
+    destruct (aget (m_issued s) c) as [id|] eqn:Hw; [|congruence].
+    unfold finish. rewrite Hw.
+    eapply (Hist_out ws _ s _ c OCancel HHw); simp_m; try reflexivity.
+    + intros E. exact (H_low _ _ _ HHw E).
+    + intros f X; discriminate X.
+    + intros X; discriminate X.
+    + intros _. unfold cancelled. apply existsb_snoc_true. apply N.eqb_refl.
+    + intros X; discriminate X.
+    + intros X; discriminate X.
+  - pose proof (Hist_weaken ws h (Forward c id) s eq_refl HH) as HHw.
+    assert (Hfw : existsb is_forward (h ++ [Forward c id]) = false -> False).
+    { intros E. rewrite (existsb_snoc_true is_forward h (Forward c id) eq_refl) in E. discriminate. }
+    destruct (aget (m_pending s) id) as [o|] eqn:P; cbn [isSome].
+    + eapply (Hist_out ws _ s _ c ORefused HHw); simp_m; try reflexivity.
+      * intros E. exfalso. exact (Hfw E).
+      * intros f X; discriminate X.
+      * intros X; discriminate X.
+      * intros X; discriminate X.
+      * intros _. unfold may_refuse. apply orb_true_iff. left. apply existsb_snoc_true. apply N.eqb_refl.
+      * intros X; discriminate X.
+    + eapply (Hist_same ws _ s _ HHw); simp_m; try reflexivity. intros E. exfalso. exact (Hfw E).
+  - pose proof (Hist_weaken ws h (FwdNotify c) s eq_refl HH) as HHw.
+    eapply (Hist_out ws _ s _ c ONotified HHw); simp_m; try reflexivity.
+    + intros E. exfalso. rewrite (existsb_snoc_true is_forward h (FwdNotify c) eq_refl) in E. discriminate.
+    + intros f X; discriminate X.
+    + intros X; discriminate X.
+    + intros X; discriminate X.
+    + intros X; discriminate X.
+    + intros _. unfold notify_forwarded. apply existsb_snoc_true. apply N.eqb_refl.
 Qed.
 
 Lemma Hist_run ws n l : forall h s,
   Inv ws s -> Hist ws h s -> n < unknown_k -> forallb (step_ok ws n) l = true -> all_enabled ws s l = true ->
-  N.of_nat (length (m_issued s) + length l) + 2 < two64 ->
+  all_fresh ws s l = true -> m_next s + N.of_nat (length l) < two64 ->
   Inv ws (run ws s l) /\ Hist ws (h ++ l) (run ws s l).
 Proof.
-  induction l as [|st l IH]; intros h s HI HH Hn Hok En Hb; cbn [run fold_left].
+  induction l as [|st l IH]; intros h s HI HH Hn Hok En Hf Hb; cbn [run fold_left].
   - rewrite app_nil_r. split; assumption.
   - cbn [forallb] in Hok. apply andb_true_iff in Hok. destruct Hok as [Hok1 Hok2].
     cbn [all_enabled] in En. apply andb_true_iff in En. destruct En as [En1 En2].
+    cbn [all_fresh] in Hf. apply andb_true_iff in Hf. destruct Hf as [Hf1 Hf2].
     cbn [length] in Hb.
     replace (h ++ st :: l) with ((h ++ [st]) ++ l) by (rewrite <- app_assoc; reflexivity).
     apply IH; try assumption.
-    + apply Inv_step; [exact HI|lia].
-    + eapply Hist_step; eassumption.
-    + pose proof (issued_len_step ws s st). lia.
+    + apply Inv_step; [exact HI|lia|exact Hf1].
+    + eapply Hist_step; try eassumption. lia.
+    + pose proof (next_step ws s st). lia.
 Qed.
 
 (** * sorting keeps distinctness *)
@@ -658,11 +865,13 @@ Qed.
 Lemma ok_caller_final ws l s c :
   Hist ws l s -> m_matched s = None -> ok_caller l c (oc_of s c) = true.
 Proof.
-  intros [T1 T2 T3 T4 T5] M. unfold oc_of. destruct (aget (m_out s) c) as [[f| |]|] eqn:O; cbn [ok_caller].
+  intros [T1 T2 T3 T4 T6 T7 T8 T5] M. unfold oc_of. destruct (aget (m_out s) c) as [[f| | | |]|] eqn:O; cbn [ok_caller].
   - apply aget_Some_In in O. destruct (T1 c f (or_intror O)) as [A B].
     rewrite A, N.eqb_refl. cbn [andb]. apply memN_In. exact B.
   - apply aget_Some_In in O. exact (T2 c O).
   - apply aget_Some_In in O. exact (T3 c O).
+  - apply aget_Some_In in O. exact (T6 c O).
+  - apply aget_Some_In in O. exact (T7 c O).
   - destruct (replied l c) eqn:R; [|reflexivity]. exfalso.
     destruct (T4 c R) as [A|[f A]]; congruence.
 Qed.
@@ -674,12 +883,13 @@ Lemma C04_holds_lemma cs : c04_wf cs = true -> ok_C04 cs (model_C04 cs) = true.
 Proof.
   unfold c04_wf. intros Hwf.
   apply andb_true_iff in Hwf. destruct Hwf as [Hwf _].
+  apply andb_true_iff in Hwf. destruct Hwf as [Hwf Hfr].
   apply andb_true_iff in Hwf. destruct Hwf as [Hwf Hen].
   apply andb_true_iff in Hwf. destruct Hwf as [Hwf Hok].
   apply andb_true_iff in Hwf. destruct Hwf as [Hn Hlen].
   apply N.ltb_lt in Hn. apply N.ltb_lt in Hlen.
-  destruct (Hist_run (c_ws cs) (c_n cs) (c_sched cs) [] mux0 (Inv0 _) (Hist0 _) Hn Hok Hen) as [HI HH].
-  { cbn [mux0 m_issued length]. unfold two32, two64 in *. lia. }
+  destruct (Hist_run (c_ws cs) (c_n cs) (c_sched cs) [] mux0 (Inv0 _) (Hist0 _) Hn Hok Hen Hfr) as [HI HH].
+  { cbn [mux0 m_next]. unfold two32, two64 in *. lia. }
   cbn [app] in HH.
   pose proof (Inv_deliver _ _ HI) as HId. pose proof (Hist_deliver _ _ _ HH) as HHd.
   unfold ok_C04, model_C04. cbn [o_out o_sub o_ids].
@@ -849,36 +1059,53 @@ Qed.
 
 (** * statements over every reachable state *)
 
-Lemma ids_fresh_reach ws l id c : N.of_nat (length l) + 2 < two64 ->
+Lemma next_run ws l : forall s, m_next s + N.of_nat (length l) < two64 ->
+  m_next (run ws s l) <= m_next s + N.of_nat (length l).
+Proof.
+  induction l as [|st l IH]; intros s Hb; cbn [run fold_left length]; [lia|].
+  cbn [length] in Hb. pose proof (next_step ws s st). 
+  assert (m_next s + 1 < two64) by lia. specialize (H H0).
+  fold (run ws (mstep ws s st) l). specialize (IH (mstep ws s st)). lia.
+Qed.
+
+Lemma nofwd_reach ws l : N.of_nat (length l) + 2 < two64 -> existsb is_forward l = false ->
+  Inv ws (run ws mux0 l) /\ Low (run ws mux0 l).
+Proof.
+  intros Hb Hnf. destruct (nofwd_run ws l mux0 (Inv0 ws) Low0) as [F L]; [cbn [mux0 m_next]; lia|exact Hnf|].
+  split; [apply Inv_reach; assumption|exact L].
+Qed.
+
+Lemma ids_fresh_reach ws l id c : N.of_nat (length l) + 2 < two64 -> existsb is_forward l = false ->
   In (id, c) (m_pending (run ws mux0 l)) -> id < m_next (run ws mux0 l).
-Proof. intros Hb. apply (ids_fresh_inv ws). apply Inv_reach. exact Hb. Qed.
+Proof. intros Hb Hnf. destruct (nofwd_reach ws l Hb Hnf) as [HI HL]. exact (ids_fresh_inv ws _ id c HI HL). Qed.
 
-Lemma ids_distinct_reach ws l : N.of_nat (length l) + 2 < two64 ->
+Lemma register_never_collides_reach ws l : N.of_nat (length l) + 2 < two64 -> existsb is_forward l = false ->
+  aget (m_pending (run ws mux0 l)) (m_next (run ws mux0 l)) = None.
+Proof. intros Hb Hnf. destruct (nofwd_reach ws l Hb Hnf) as [HI HL]. exact (Low_pending ws _ HI HL). Qed.
+
+Lemma ids_distinct_reach ws l : N.of_nat (length l) + 2 < two64 -> all_fresh ws mux0 l = true ->
   NoDup (map snd (m_issued (run ws mux0 l))) /\ NoDup (map snd (m_wire (run ws mux0 l))).
-Proof. intros Hb. apply (ids_distinct_inv ws). apply Inv_reach. exact Hb. Qed.
+Proof. intros Hb Hf. apply (ids_distinct_inv ws). apply Inv_reach; assumption. Qed.
 
-Lemma pending_inj_reach ws l : N.of_nat (length l) + 2 < two64 ->
+Lemma pending_inj_reach ws l : N.of_nat (length l) + 2 < two64 -> all_fresh ws mux0 l = true ->
   NoDup (map fst (m_pending (run ws mux0 l))) /\
   forall id1 id2 c, In (id1, c) (m_pending (run ws mux0 l)) -> In (id2, c) (m_pending (run ws mux0 l)) -> id1 = id2.
 Proof.
-  intros Hb. pose proof (Inv_reach ws l Hb) as HI. split; [exact (I_pend_nd _ _ HI)|].
+  intros Hb Hf. pose proof (Inv_reach ws l Hb Hf) as HI. split; [exact (I_pend_nd _ _ HI)|].
   intros id1 id2 c. apply (pending_inj_inv ws). exact HI.
 Qed.
 
-Lemma own_response_reach ws l c f : N.of_nat (length l) + 2 < two64 ->
+Lemma own_response_reach ws l c f : N.of_nat (length l) + 2 < two64 -> all_fresh ws mux0 l = true ->
   In (c, OGot f) (m_out (run ws mux0 l)) -> aget (m_issued (run ws mux0 l)) c = Some (f_id f).
-Proof. intros Hb. apply (own_response_inv ws). apply Inv_reach. exact Hb. Qed.
+Proof. intros Hb Hf. apply (own_response_inv ws). apply Inv_reach; assumption. Qed.
 
-Lemma at_most_one_reach ws l : N.of_nat (length l) + 2 < two64 -> NoDup (map fst (m_out (run ws mux0 l))).
-Proof. intros Hb. exact (I_out_nd _ _ (Inv_reach ws l Hb)). Qed.
+Lemma at_most_one_reach ws l : N.of_nat (length l) + 2 < two64 -> all_fresh ws mux0 l = true ->
+  NoDup (map fst (m_out (run ws mux0 l))).
+Proof. intros Hb Hf. exact (I_out_nd _ _ (Inv_reach ws l Hb Hf)). Qed.
 
-Lemma ws_no_notify_to_caller_reach l c f : N.of_nat (length l) + 2 < two64 ->
+Lemma ws_no_notify_to_caller_reach l c f : N.of_nat (length l) + 2 < two64 -> all_fresh true mux0 l = true ->
   In (c, OGot f) (m_out (run true mux0 l)) -> f_notify f = 0.
-Proof. intros Hb Hin. destruct (I_out _ _ (Inv_reach true l Hb) _ _ Hin) as [_ A]. exact (A eq_refl). Qed.
-
-Lemma register_never_collides_reach ws l : N.of_nat (length l) + 2 < two64 ->
-  aget (m_pending (run ws mux0 l)) (m_next (run ws mux0 l)) = None.
-Proof. intros Hb. eapply pending_below; [apply Inv_reach; exact Hb|apply N.le_refl]. Qed.
+Proof. intros Hb Hf Hin. destruct (I_out _ _ (Inv_reach true l Hb Hf) _ _ Hin) as [_ A]. exact (A eq_refl). Qed.
 
 Lemma ws_notify_readable s f : f_notify f <> 0 ->
   let s' := mstep true s (Recv f) in
@@ -887,4 +1114,87 @@ Lemma ws_notify_readable s f : f_notify f <> 0 ->
 Proof.
   intros Hn s'. unfold s'. rewrite (ws_notify_gen s f Hn). simp_m.
   rewrite deliver_pending, deliver_sub, deliver_matched. repeat split; reflexivity.
+Qed.
+
+(** * a call with a caller-supplied id that is in flight *)
+
+Lemma forward_refused_state ws s c id o :
+  aget (m_pending s) id = Some o -> enabled s (Forward c id) = true ->
+  mstep ws s (Forward c id)
+  = mkMux (m_next s) (m_pending s) (m_issued s) (m_wire s) (m_matched s) (m_out s ++ [(c, ORefused)]) (m_sub s) (m_dropped s).
+Proof. intros P En. unfold mstep. rewrite En, P. reflexivity. Qed.
+
+Lemma forward_keeps ws s c id o :
+  aget (m_pending s) id = Some o ->
+  m_pending (mstep ws s (Forward c id)) = m_pending s /\ m_matched (mstep ws s (Forward c id)) = m_matched s /\
+  m_issued (mstep ws s (Forward c id)) = m_issued s /\ m_next (mstep ws s (Forward c id)) = m_next s.
+Proof.
+  intros P. unfold mstep. destruct (negb (enabled s (Forward c id))); [repeat split; reflexivity|].
+  rewrite P. repeat split; reflexivity.
+Qed.
+
+Lemma forward_refused_owner ws s c id o f :
+  aget (m_pending s) id = Some o -> m_matched s = None -> ws && negb (f_notify f =? 0) = false -> f_id f = id ->
+  m_matched (mstep ws (mstep ws s (Forward c id)) (Recv f)) = Some (o, f).
+Proof.
+  intros P M E Hid. destruct (forward_keeps ws s c id o P) as [K1 [K2 _]].
+  rewrite mstep_recv. rewrite deliver_none by (rewrite K2; exact M).
+  unfold route. rewrite E, K1, Hid, P. reflexivity.
+Qed.
+
+Lemma issued_mono_step ws s st c id : In (c, id) (m_issued s) -> In (c, id) (m_issued (mstep ws s st)).
+Proof.
+  intros Hin. unfold mstep. destruct (negb (enabled s st)); [exact Hin|].
+  destruct st as [c0|c0|f|a| |c0|c0|c0 i|c0].
+  - destruct (isSome (aget (m_pending s) (m_next s))); simp_m; [exact Hin|apply in_or_app; left; exact Hin].
+  - destruct (aget (m_issued s) c0); simp_m; exact Hin.
+  - rewrite route_issued, deliver_issued. exact Hin.
+  - destruct (frame_of s a); [rewrite route_issued, deliver_issued|]; exact Hin.
+  - rewrite deliver_issued. exact Hin.
+  - rewrite finish_issued. exact Hin.
+  - rewrite finish_issued. exact Hin.
+  - destruct (isSome (aget (m_pending s) i)); simp_m; [exact Hin|apply in_or_app; left; exact Hin].
+  - simp_m. exact Hin.
+Qed.
+
+Lemma issued_mono_run ws l : forall s c id, In (c, id) (m_issued s) -> In (c, id) (m_issued (run ws s l)).
+Proof.
+  induction l as [|st l IH]; intros s c id Hin; cbn [run fold_left]; [exact Hin|].
+  apply (IH (mstep ws s st)). apply issued_mono_step. exact Hin.
+Qed.
+
+Lemma forward_refused_continuation ws s c id o l f :
+  Inv ws s -> aget (m_pending s) id = Some o ->
+  m_next s + N.of_nat (length l) + 1 < two64 -> all_fresh ws (mstep ws s (Forward c id)) l = true ->
+  In (o, OGot f) (m_out (run ws (mstep ws s (Forward c id)) l)) -> f_id f = id.
+Proof.
+  intros HI P Hb Hf Hin.
+  assert (HI' : Inv ws (mstep ws s (Forward c id))).
+  { apply Inv_step; [exact HI|lia|]. cbn [fresh_reg]. rewrite P. reflexivity. }
+  destruct (forward_keeps ws s c id o P) as [_ [_ [K3 K4]]].
+  assert (HIr : Inv ws (run ws (mstep ws s (Forward c id)) l)).
+  { apply Inv_run; [exact HI'| |exact Hf]. rewrite K4. lia. }
+  pose proof (own_response_inv ws _ o f HIr Hin) as A.
+  apply aget_Some_In in P. destruct (I_pend_iss _ _ HI _ _ P) as [B _].
+  rewrite <- K3 in B. apply (issued_mono_run ws l) in B.
+  apply (In_aget _ _ _ (I_iss_c _ _ HIr)) in B. congruence.
+Qed.
+
+Lemma forward_duplicate_refused_reach ws l0 c id o :
+  N.of_nat (length l0) + 2 < two64 -> all_fresh ws mux0 l0 = true ->
+  let s := run ws mux0 l0 in
+  aget (m_pending s) id = Some o -> enabled s (Forward c id) = true ->
+  let s' := mstep ws s (Forward c id) in
+  s' = mkMux (m_next s) (m_pending s) (m_issued s) (m_wire s) (m_matched s) (m_out s ++ [(c, ORefused)]) (m_sub s) (m_dropped s) /\
+  (forall f, m_matched s = None -> ws && negb (f_notify f =? 0) = false -> f_id f = id ->
+     m_matched (mstep ws s' (Recv f)) = Some (o, f)) /\
+  (forall l f, N.of_nat (length l0 + length l) + 3 < two64 -> all_fresh ws s' l = true ->
+     In (o, OGot f) (m_out (run ws s' l)) -> f_id f = id).
+Proof.
+  intros Hb Hf s P En s'. split; [exact (forward_refused_state ws s c id o P En)|]. split.
+  - intros f M E Hid. exact (forward_refused_owner ws s c id o f P M E Hid).
+  - intros l f Hb2 Hf2 Hin. eapply (forward_refused_continuation ws s c id o l f); try eassumption.
+    + apply Inv_reach; assumption.
+    + pose proof (next_run ws l0 mux0) as Hn. cbn [mux0 m_next] in Hn. fold s in Hn.
+      assert (1 + N.of_nat (length l0) < two64) by lia. specialize (Hn H). lia.
 Qed.
